@@ -210,4 +210,29 @@ def recvBridged (v : Variant) (bridge : Option Hdr) (req : Hdr) (fl : Flags) :
     | .noise => some (.pyError "unmatched-frame:C04")
     | .err e => some e
 
+/-- Both loops of `Rmcp._send_and_receive` as far as bridging is concerned, over the attempts of ONE request:
+`attempts` holds, per transmission, the frames that arrive before the read times out; `budget` = the
+transmissions left (`max_retries + 1` at the start).  `except socket.timeout: retry += 1` sends the SAME
+`tx_data` again, and `header` / `bridge_header` (built once, in front of the loop) are what every attempt's
+frames are compared with: the sequence number of a request is constant over its retransmissions.
+`none` = the script is used up while the transport still waits. -/
+def retryBridged (v : Variant) (bridge : Option Hdr) (req : Hdr) (fl : Flags) :
+    Nat → List (List (List Nat)) → Option (Outcome (List Nat))
+  | 0, _ => some .retryError
+  | _ + 1, [] => none
+  | n + 1, att :: rest =>
+    match recvBridged v bridge req fl att with
+    | none => retryBridged v bridge req fl n rest
+    | some o => some o
+
+/-- number of datagrams `retryBridged` transmits (driver output only) -/
+def retryAttempts (v : Variant) (bridge : Option Hdr) (req : Hdr) (fl : Flags) :
+    Nat → List (List (List Nat)) → Nat
+  | 0, _ => 0
+  | _ + 1, [] => 0
+  | n + 1, att :: rest =>
+    match recvBridged v bridge req fl att with
+    | none => 1 + retryAttempts v bridge req fl n rest
+    | some _ => 1
+
 end PyIpmi.Bridge
